@@ -380,6 +380,37 @@ func Builders(thorough bool) []Builder {
 			return &rtcp.ExtendedReport{SenderSSRC: t.u32(), Reports: []rtcp.ReportBlock{&rtcp.ReceiverReferenceTimeReportBlock{NTPTimestamp: t.u64()}, b}}
 		})
 	}
+	// list-bearing block kinds with more than 255 words (block length beyond one octet) and beyond 64 KiB
+	for _, n := range []int{600, 40000} { // chunk counts (even: aligned blocks)
+		n := n
+		add("ExtendedReport", fmt.Sprintf("big:blocks=loss-rle-%d-chunks+rrt", n), func() rtcp.Packet {
+			t := &tagger{}
+			b := &rtcp.LossRLEReportBlock{T: 5, SSRC: t.u32(), BeginSeq: t.u16(), EndSeq: t.u16(), Chunks: make([]rtcp.Chunk, n)}
+			for i := range b.Chunks {
+				b.Chunks[i] = rtcp.Chunk(uint16(i)*40503 | 1)
+			}
+			return &rtcp.ExtendedReport{SenderSSRC: t.u32(), Reports: []rtcp.ReportBlock{b, &rtcp.ReceiverReferenceTimeReportBlock{NTPTimestamp: t.u64()}}}
+		})
+		add("ExtendedReport", fmt.Sprintf("big:blocks=rrt+dup-rle-%d-chunks", n), func() rtcp.Packet {
+			t := &tagger{}
+			b := &rtcp.DuplicateRLEReportBlock{T: 9, SSRC: t.u32(), BeginSeq: t.u16(), EndSeq: t.u16(), Chunks: make([]rtcp.Chunk, n)}
+			for i := range b.Chunks {
+				b.Chunks[i] = rtcp.Chunk(uint16(i)*25173 | 1)
+			}
+			return &rtcp.ExtendedReport{SenderSSRC: t.u32(), Reports: []rtcp.ReportBlock{&rtcp.ReceiverReferenceTimeReportBlock{NTPTimestamp: t.u64()}, b}}
+		})
+	}
+	for _, n := range []int{100, 6000} { // DLRR sub-blocks of 12 octets
+		n := n
+		add("ExtendedReport", fmt.Sprintf("big:blocks=dlrr-%d+rrt", n), func() rtcp.Packet {
+			t := &tagger{}
+			b := &rtcp.DLRRReportBlock{}
+			for i := 0; i < n; i++ {
+				b.Reports = append(b.Reports, rtcp.DLRRReport{SSRC: 0x80000000 + uint32(i), LastRR: uint32(i)*2654435761 + 1, DLRR: uint32(i)*40503 + 7})
+			}
+			return &rtcp.ExtendedReport{SenderSSRC: t.u32(), Reports: []rtcp.ReportBlock{b, &rtcp.ReceiverReferenceTimeReportBlock{NTPTimestamp: t.u64()}}}
+		})
+	}
 	add("ExtendedReport", "blocks=0", func() rtcp.Packet {
 		t := &tagger{}
 		return &rtcp.ExtendedReport{SenderSSRC: t.u32()}
